@@ -201,6 +201,16 @@ def gen_case(seed, tier, i):
         elif r < 0.45:
             ops.append({'op': 'gc'})
     cwd_in = True if combo else rng.random() < 0.6
+    # second kind of corner (same safe names): the host's sys.path holds the absolute project directory
+    abs_entry = combo and rng.random() < 0.5
+    if abs_entry:
+        cwd_in = rng.random() < 0.5
+        # never with InterpreterEnvironment: there the host's sys.path IS the environment's own path, so a
+        # host that has put the project on its path has opted in (Python itself would import from there)
+        env = rng.choice(['default', 'default', 'explicit'])
+        for o in ops:
+            if o.get('op') == 'script':
+                o['env'] = env
     # where the project lives relative to the environment's own sys.path: elsewhere, nested
     # below an entry (monorepo checkout under a PYTHONPATH directory), or a sibling whose name
     # merely starts with an entry
@@ -215,7 +225,8 @@ def gen_case(seed, tier, i):
             # '' on the host's sys.path (interactive session / python -c / embedding host) - but never
             # together with cwd inside the project: then ANY lazy stdlib import of the host program
             # resolves to project files (math.py ...), which is Python's doing, not jedi's
-            'host_path_empty_entry': True if combo else ((not cwd_in) and rng.random() < 0.7), 'place': place}
+            'host_path_empty_entry': (combo and not abs_entry) or ((not combo) and (not cwd_in) and rng.random() < 0.7),
+            'host_path_project_entry': abs_entry, 'place': place}
 
 
 class C12(base.Engine):
@@ -247,6 +258,8 @@ class C12(base.Engine):
                 extra['extra_pythonpath'] = ['w']
             if case.get('host_path_empty_entry'):
                 extra['host_path_empty_entry'] = True
+            if case.get('host_path_project_entry'):
+                extra['host_path_project_entry'] = True
             events, bad = driver.run_history(case, root, inv=['sentinel', 'host', 'helper'], extra=extra)
         finally:
             driver.rm_root(root)
